@@ -74,6 +74,7 @@ type H struct {
 	inheritedOwned map[uint16]bool
 	// the case closes the client: ErrClosed on exchanges is expected
 	closing bool
+	born    time.Time
 }
 
 func newH(rt *rapid.T, prop string, o sim.Options) *H {
@@ -82,7 +83,7 @@ func newH(rt *rapid.T, prop string, o sim.Options) *H {
 		o.ClientID = clientID
 	}
 	w := sim.New(rt, o)
-	h := &H{World: w, rt: rt, prop: prop, labels: map[string]bool{}}
+	h := &H{World: w, rt: rt, prop: prop, labels: map[string]bool{}, born: time.Now()}
 	w.WithLock(func() { h.brokerInit = w.Broker.Snapshot() })
 	return h
 }
@@ -99,6 +100,12 @@ func (h *H) labelList() []string {
 
 // finish records the case and tears the world down.
 func (h *H) finish(nontrivial bool) {
+	if d := time.Since(h.born); d > 2*time.Second {
+		stats.For(h.prop).Label("case-slower-than-2s", 1)
+		if os.Getenv("VERIF_SLOW") != "" {
+			fmt.Fprintf(os.Stderr, "SLOW CASE %v\n%s\n", d, strings.Join(h.Script, "\n"))
+		}
+	}
 	stats.For(h.prop).Case(strings.Join(h.Script, "\n"), nontrivial, h.labelList()...)
 	if !h.Shutdown(5 * time.Second) {
 		stats.For(h.prop).Label("teardown-incomplete", 1)
@@ -306,9 +313,7 @@ func (h *H) drain(done func() bool) {
 	}
 	for h.ReleaseDial() {
 	}
-	for _, g := range h.ParkedGates() {
-		h.ReleaseGate(g)
-	}
+	h.OpenAllGates()
 	h.WithLock(func() {
 		h.NextConnOpts = nil
 		for _, c := range h.Conns {
